@@ -383,6 +383,14 @@ Inexpressible(L, ver) ==
     \cup (IF HasParams(L.kind) /\ ver = 1 /\ (L.skipmeta = 1 \/ L.pagesize # 0 \/ L.pstate # <<>>) THEN {"paging"} ELSE {})
     \cup (IF L.serial # 0 /\ ((HasParams(L.kind) /\ ver = 1) \/ (L.kind = "BATCH" /\ ver <= 2)) THEN {"serial"} ELSE {})
     \cup (IF L.ts.set = 1 /\ ver <= 2 THEN {"timestamp"} ELSE {})
+    \* a [string] / [short bytes] carries at most 65535 bytes
+    \cup (IF \/ Len(L.ks) > 65535 \/ Len(L.pid) > 65535
+             \/ \E i \in 1 .. Len(vs) : Len(vs[i].name) > 65535
+             \/ \E i \in 1 .. Len(L.payload) : Len(L.payload[i].k) > 65535
+             \/ \E i \in 1 .. Len(L.smap) : Len(L.smap[i].k) > 65535 \/ Len(L.smap[i].v) > 65535
+             \/ \E i \in 1 .. Len(L.slist) : Len(L.slist[i]) > 65535
+             \/ \E i \in 1 .. Len(L.stmts) : Len(L.stmts[i].pid) > 65535
+          THEN {"string-length"} ELSE {})
 
 (***************************************************************************)
 (* Comparison of a decoded frame D with the logical request L: the first   *)
